@@ -3,7 +3,7 @@
    constructors (src/SM/SourceMap.cpp, src/SM/KickMap.cpp). Do not edit.
    A0, A1: the axes in->getAxis(0), in->getAxis(1) of the source grid (SourceMap: _axis[k] = in->getAxis(0|1));
    M: the data members of RFKickMap; ftan, fsin, fasin: std::tan, std::sin, std::asin; c, two_pi: physcons::c, two_pi<double>(). *)
-From Coq Require Import List ZArith String Bool.
+From Coq Require Import List ZArith Bool.
 From Inovesa Require Import Base.FieldKit Model.RF Model.RFDriftKit.
 Import ListNotations.
 Local Open Scope Z_scope.
@@ -40,7 +40,7 @@ Definition rfk_sin_arg (K : Fld) (ftan fsin fasin : K -> K) (A0 A1 : axfacts K) 
 Definition rfk_lin_value (K : Fld) (ftan fsin fasin : K -> K) (A0 A1 : axfacts K) (M : rfk_members K) (phase ampl : K) (nb xsize ysize n x : Z) : K :=
   ((((ftan (m_angle M)) * ((ax_zerobin A0) - (fz (x)%Z))) + ((((ftan (m_angle M)) * ((m_syncphase M) - phase)) / (m_bl2phase M)) / (ax_delta A0))) * ampl).
 Definition rfk_sin_value (K : Fld) (ftan fsin fasin : K -> K) (A0 A1 : axfacts K) (M : rfk_members K) (phase ampl : K) (nb xsize ysize n x : Z) : K :=
-  ((((m_revolutionpart M) * ((((- ampl) * (m_V_RF M)) * (fsin (rfk_sin_arg K ftan fsin fasin A0 A1 M phase ampl nb xsize ysize n x))) + (m_V0 M))) / (ax_delta A1)) / (ax_scale A1 "ElectronVolt"%string)).
+  ((((m_revolutionpart M) * ((((- ampl) * (m_V_RF M)) * (fsin (rfk_sin_arg K ftan fsin fasin A0 A1 M phase ampl nb xsize ysize n x))) + (m_V0 M))) / (ax_delta A1)) / (ax_scale A1 U_ElectronVolt)).
 (* linear constructor: the members after the mem-initialisers (declaration order), the arguments of its _calcKick call *)
 Definition rfk_ctor_lin_members (K : Fld) (ftan fsin fasin : K -> K) (A0 A1 : axfacts K) (c two_pi : K) (angle f_RF : K) : rfk_members K :=
   mkRFK true
@@ -50,7 +50,7 @@ Definition rfk_ctor_lin_members (K : Fld) (ftan fsin fasin : K -> K) (A0 A1 : ax
     f_RF
     0
     0
-    ((((ax_scale A0 "Meter"%string) / c) * f_RF) * two_pi).
+    ((((ax_scale A0 U_Meter) / c) * f_RF) * two_pi).
 Definition rfk_ctor_lin_phase (K : Fld) (ftan fsin fasin : K -> K) (A0 A1 : axfacts K) (M : rfk_members K) (angle f_RF : K) : K := (m_syncphase M).
 Definition rfk_ctor_lin_ampl (K : Fld) (ftan fsin fasin : K -> K) (A0 A1 : axfacts K) (M : rfk_members K) (angle f_RF : K) : K := 1.
 (* sinusoidal constructor: the members after the mem-initialisers (declaration order), the arguments of its _calcKick call *)
@@ -62,9 +62,9 @@ Definition rfk_ctor_sin_members (K : Fld) (ftan fsin fasin : K -> K) (A0 A1 : ax
     f_RF
     V0
     (fasin (V0 / V_RF))
-    ((((ax_scale A0 "Meter"%string) / c) * f_RF) * two_pi).
+    ((((ax_scale A0 U_Meter) / c) * f_RF) * two_pi).
 Definition rfk_ctor_sin_phase (K : Fld) (ftan fsin fasin : K -> K) (A0 A1 : axfacts K) (M : rfk_members K) (revolutionpart V_RF f_RF V0 : K) : K := (m_syncphase M).
 Definition rfk_ctor_sin_ampl (K : Fld) (ftan fsin fasin : K -> K) (A0 A1 : axfacts K) (M : rfk_members K) (revolutionpart V_RF f_RF V0 : K) : K := 1.
 (* DriftMap constructor: the value left in the element written by iteration y *)
 Definition dm_value (K : Fld) (ftan fsin fasin : K -> K) (A0 A1 : axfacts K) (slip : list K) (E0 : K) (nb xsize ysize y : Z) : K :=
-  ((acc_loop ((zlen slip))%Z (fun (acc : K) (i : Z) => (acc + (((nthK slip (i)%Z) * (ax_at A1 (y)%Z)) * (kpow (((ax_at A1 (y)%Z) * (ax_scale A1 "ElectronVolt"%string)) / E0) (Z.to_nat (i)%Z))))) 0) / (ax_delta A0)).
+  ((acc_loop ((zlen slip))%Z (fun (acc : K) (i : Z) => (acc + (((nthK slip (i)%Z) * (ax_at A1 (y)%Z)) * (kpow (((ax_at A1 (y)%Z) * (ax_scale A1 U_ElectronVolt)) / E0) (Z.to_nat (i)%Z))))) 0) / (ax_delta A0)).
